@@ -276,12 +276,18 @@ class TranslatorC(Translator):
                 arg0 = self.from_expr(expr.args[0])
                 arg1 = self.from_expr(expr.args[1])
                 if expr.size <= self.NATIVE_INT_MAX_SIZE:
+                    # The shift macros exist for the C integer sizes only
+                    size = get_c_common_next_pow2(expr.size)
+                    if size != expr.size and expr.op == 'a>>':
+                        arg0 = self.from_expr(expr.args[0].signExtend(size))
                     out = 'SHIFT_%s(%d, %s, %s)' % (
                         self.dct_shift[expr.op].upper(),
-                        expr.args[0].size,
+                        size,
                         arg0,
                         arg1
                     )
+                    if size != expr.size:
+                        out = "(%s&%s)" % (out, self._size2mask(expr.size))
                 else:
                     if expr.op == "a>>":
                         out = "bignum_a_rshift(%s, %d, bignum_to_uint64(%s))" % (
